@@ -1,5 +1,10 @@
+/-
+  C10 at whole-document level: the shared look-ahead loop `lazyScan` and the paragraph, setext-heading
+  and reference-definition rules on related states (`lazyScan_sim`, `paragraph_sim`, `lheading_sim`,
+  `reference_sim`; relation and read lemmas: `MdIt/Lemmas/C10DocCore.lean`).
+-/
 import MdIt.Lemmas.C10DocCore
-namespace MdIt.Block
+namespace MdIt.Block.LE
 open MdIt.Lines (LineOffset)
 variable {ρ : Nat → Nat → Prop} {G : Geo}
 
@@ -144,4 +149,4 @@ theorem reference_sim (cfg : Cfg) (C : Ctx ρ G) {test₁ test₂ : Test} (TS : 
   srel_fields S'
   exact S'.children
 
-end MdIt.Block
+end MdIt.Block.LE
